@@ -471,7 +471,7 @@ func snSpecTexts(env *vk.Env, cfg string) []snTextVec {
 func runC04(env *vk.Env) {
 	env.Cov.Rule = "S: TLC enumerates character strings that keep SNBT.tla's reader alive plus one dying step (full alphabet, structural alphabet, literal alphabet) checking TextLaws, and Parse(Show(t)) = t over the tree universe (3 layouts x 2 quoting styles). A: every enumerated text and re-laid-out variants through the real Marshal(StringifiedMessage)/TagType; every universe document through both real printers and back. B: random documents, random grammar texts, mutated texts, fixed probes of known-defective classes. Every recorded call is judged by SNBT_Trace (Parse / DecDoc evaluated by TLC). Distinct/non-trivial = distinct (entry, reading class, root form) combinations."
 	env.Assume = []string{
-		"decimal literals are limited to the 16 exactly representable values of FloatTab (and their negatives); other decimals, exponent forms, .5, 5., leading +, true/false, zero-padded or out-of-range integers, escapes other than \\q and \\\\, blanks inside an array prefix and duplicate keys are grey: only panic-freedom and well-formedness of the output are judged there",
+		"decimal literals are limited to the 27 values of FloatTab (16 exactly representable ones, 5 long and 6 one-digit shortest spellings) and their negatives; other decimals, exponent forms, .5, 5., leading +, true/false, zero-padded or out-of-range integers, escapes other than \\q and \\\\, blanks inside an array prefix and duplicate keys are grey: only panic-freedom and well-formedness of the output are judged there",
 		"the element type of an EMPTY list cannot be written in SNBT: trees are compared after mapping it to End",
 		"string bytes are opaque (any byte may appear inside quotes)",
 	}
@@ -958,7 +958,8 @@ func snWriteFile(p, s string)  { os.WriteFile(p, []byte(s), 0o644) }
 
 // ---------------------------------------------------------------- leg B: generators (inputs only)
 
-var snFloatVals = []float64{0, 1, 2, 3, 0.5, 1.5, 0.25, 2.25, 0.125, 100, 1024, 0.75, 10, 12.5, 3.5, 127, 0x1p-40, 0x3p-36, 1 + 0x1p-50}
+var snFloatVals = []float64{0, 1, 2, 3, 0.5, 1.5, 0.25, 2.25, 0.125, 100, 1024, 0.75, 10, 12.5, 3.5, 127, 0x1p-40, 0x3p-36, 1 + 0x1p-50,
+	1e6, 6e7, 2e-5, 1e21, 1e-5, 1e-4} // the last six: one significant digit, magnitudes where an exponent form would be shorter
 
 type snProfile struct {
 	negBytes    bool // byte values >= 0x80
